@@ -11,6 +11,7 @@ Theorem C12_stream_primitive_bodies_as_reviewed :
   [("DeleteStream", "a26f5f28952d4f78");
    ("GetParams", "e5651d249a1817ba");
    ("GetStream", "e42b50c02f88d2b2");
+   ("GetStreamModuleAccount", "1e46ade0d603f10c");
    ("IsStream", "c1bd12c927b786ea");
    ("SetParams", "73bc5d17b364b792");
    ("SetStream", "b36316b842b0ebd9")].
